@@ -46,6 +46,9 @@ func (v *Verifier) calleeKey(com *ssa.CallCommon) string {
 			if st, ok := a.X.Type().Underlying().(*types.Pointer).Elem().Underlying().(*types.Struct); ok {
 				return "." + st.Field(a.Field).Name()
 			}
+		case *ssa.Global:
+			// call through a package-level function variable
+			return a.Pkg.Pkg.Path() + "." + a.Name()
 		}
 	}
 	if p, ok := com.Value.(*ssa.Parameter); ok {
@@ -112,21 +115,27 @@ func (v *Verifier) findContract(key string) *Contract {
 	var found *Contract
 	pkg := keyPkgPath(key)
 	cands := candidateKeys(key, pkg)
+	var matches []*Contract
 	for i, k := range cands {
+		unqualified := i == len(cands)-1 && len(cands) > 1
 		for _, c := range v.cs.ByKey[normKey(k)] {
 			// the unqualified form only matches contracts declared in the callee's own package
-			unqualified := i == len(cands)-1 && len(cands) > 1 && !strings.Contains(strings.TrimPrefix(strings.TrimPrefix(k, "("), "*"), ".") || (!strings.Contains(k, "/") && strings.Count(k, ".") == strings.Count(k, ")."))
 			if unqualified && c.Pkg != pkg {
 				continue
 			}
-			if c.External || c.Pkg == pkg || c.Pkg == "" || !unqualified {
-				found = c
-				break
-			}
+			matches = append(matches, c)
 		}
-		if found != nil {
+	}
+	// prefer the contract declared (and verified) in the callee's own package over summaries
+	// other packages assume about it
+	for _, c := range matches {
+		if c.Pkg == pkg && !c.Trusted && !c.External {
+			found = c
 			break
 		}
+	}
+	if found == nil && len(matches) > 0 {
+		found = matches[0]
 	}
 	if found == nil {
 		// pattern contracts: "pkg.*", "(pkg.T).*", "(*pkg.T).*"
@@ -152,7 +161,7 @@ func (fr *Frame) calleeEffects(com *ssa.CallCommon) effect {
 	key := fr.c.v.calleeKey(com)
 	con := fr.c.v.findContract(key)
 	if con != nil {
-		if con.Pure || con.Benign || modifiesNothing(con) {
+		if con.Pure || con.Benign || modifiesNothing(con) || con.AssumeBenign {
 			return effNone
 		}
 		if modifiesArgs(con) {
@@ -230,8 +239,10 @@ func (fr *Frame) doCall(in ssa.Instruction, com *ssa.CallCommon, st *State, isGo
 				fr.safetyOb("nil-func", "", not(eq(fv.T[0], Term{"nil_fn", SFn})), pos, "call of nil function value")
 			}
 		}
-	} else {
+	} else if !fr.assumedNonNilOrigin(com.Value) {
 		fr.safetyOb("nil-invoke", com.Method.Name(), not(eq(ifTag(ca.terms[0]), Term{"0", SInt})), pos, "method call on nil interface value")
+	} else {
+		c.assumeNote("interface values held in parameters and in fields of the receiver are assumed non-nil when methods are called on them (constructor invariant)")
 	}
 	si, hasSite := fr.sites[in]
 	key := si.key
@@ -265,6 +276,7 @@ func (fr *Frame) doCall(in ssa.Instruction, com *ssa.CallCommon, st *State, isGo
 				continue
 			}
 			lab := clauseLabel(cl, i)
+			c.pendingParts, c.pendingGuard = ec.clauseParts(cl.Expr), fr.reach
 			fr.oblige("sink", fmt.Sprintf("%s/%s", shortKey(key), lab), implies(fr.reach, t), pos, "before calling "+shortKey(key)+": "+oneLine(cl.Text))
 		}
 		for _, cl := range fr.con.Covers {
@@ -448,6 +460,10 @@ func (fr *Frame) contractCall(con *Contract, key string, sig *types.Signature, c
 				l := c.ptrLVal(t, pt.Elem())
 				fr.write(l, st, c.freshOfType("out", pt.Elem()))
 			}
+		} else if con.HO != "" {
+			c.assumeNote("higher-order summary (assumed): " + shortKey(key) + " affects caller-visible memory only by invoking its function arguments (" + con.HO + ")")
+		} else if con.AssumeBenign {
+			c.assumeNote("assumed effect (not checked against the body): " + shortKey(key) + " does not modify memory visible to its callers")
 		} else if !(con.Benign || modifiesNothing(con)) {
 			c.havocAll(st)
 			for _, o := range ca.outs {
@@ -491,6 +507,9 @@ func (fr *Frame) contractCall(con *Contract, key string, sig *types.Signature, c
 		}
 		t, err := mkEC(st, pre).evalBool(cl.Expr)
 		if err != nil {
+			if strings.HasPrefix(err.Error(), "unknown identifier") {
+				continue // talks about the callee's locals: not visible to callers
+			}
 			c.stale = append(c.stale, fmt.Sprintf("%s:%d: %v", cl.File, cl.Line, err))
 			continue
 		}
@@ -678,6 +697,14 @@ func (fr *Frame) inlineCall(fn *ssa.Function, clo *Closure, ca *callArgs, st *St
 	}
 	fr.setReach(c.sc.define("reach_after_"+sanitize(fn.Name()), or(conds...)))
 	fr.children = append(fr.children, child)
+	// objects allocated by the callee are no longer tracked as private once it has returned
+	var keep []privRef
+	for _, p := range c.privateRefs {
+		if p.fr != child {
+			keep = append(keep, p)
+		}
+	}
+	c.privateRefs = keep
 	return res, nil
 }
 
@@ -1156,6 +1183,37 @@ func mentionsEvents(e CExpr, ho map[string]*Event) bool {
 		return mentionsEvents(x.C, ho) || mentionsEvents(x.A, ho) || mentionsEvents(x.B, ho)
 	case *CAssert:
 		return mentionsEvents(x.X, ho)
+	}
+	return false
+}
+
+// assumedNonNilOrigin: the value is a parameter, or was loaded from a (possibly nested) field of
+// the receiver / a parameter struct: constructor-established, not attacker-controlled.
+func (fr *Frame) assumedNonNilOrigin(v ssa.Value) bool {
+	for i := 0; i < 8; i++ {
+		switch x := v.(type) {
+		case *ssa.Parameter, *ssa.FreeVar:
+			return true
+		case *ssa.UnOp:
+			if x.Op != token.MUL {
+				return false
+			}
+			v = x.X
+		case *ssa.FieldAddr:
+			v = x.X
+		case *ssa.Field:
+			v = x.X
+		case *ssa.Alloc:
+			// the local copy of a parameter
+			for _, p := range fr.fn.Params {
+				if p.Name() == x.Comment {
+					return true
+				}
+			}
+			return false
+		default:
+			return false
+		}
 	}
 	return false
 }
